@@ -23,10 +23,10 @@
 #            equal deadlines or awaiting during clean-up are forbidden; the second
 #            variant uses nothing but library constructs. (With different deadlines
 #            or without a suspending clean-up the scopes behave as specified.)
-import sys; sys.path.insert(0, '/tmp/hunt1')
+import sys; sys.path.insert(0, '/repo')
 import faulthandler; faulthandler.dump_traceback_later(20, exit=True)
 import usim
-assert usim.__file__.startswith('/tmp/hunt1')
+assert usim.__file__.startswith('/repo')
 from usim import run, time, eternity, instant, until, Resources
 
 
